@@ -91,6 +91,15 @@ def _scan_place(F, f, place, how, span, out):
     out.setdefault((owner, e["name"]), []).append((f.label, kind, span, f.name if (genuine or f.name != "new") else "new (not the constructor)"))
 
 
+def _mentions_crate_adt(F, ty):
+    if not isinstance(ty, dict):
+        return False
+    if ty.get("k") == "adt" and ty.get("krate") == F.d["crate"]:
+        return True
+    return any(_mentions_crate_adt(F, a) for a in (ty.get("args") or [])) or any(_mentions_crate_adt(F, ty.get(k_)) for k_ in ("to", "elem")) \
+        or any(_mentions_crate_adt(F, a) for a in (ty.get("elems") or []))
+
+
 def classify_fields(F):
     """{Struct: {field: class}} for indicator structs"""
     stores = collect_stores(F)
@@ -106,6 +115,10 @@ def classify_fields(F):
                 cls[name] = "NESTED"
             elif ty["s"].startswith("std::boxed::Box<["):
                 cls[name] = "BUFFER"
+            elif _mentions_crate_adt(F, ty):
+                # a helper struct / enum of this crate that is not an indicator: stores into its fields are attributed to the helper,
+                # so PARAM/STATE cannot be decided here — never "PARAM" by default
+                cls[name] = "FOREIGN"
             elif not [x for x in sts if x[1] in ("whole", "element", "mutborrow", "mutborrow-element")]:
                 cls[name] = "PARAM"
             else:
